@@ -97,6 +97,12 @@ def exprTyLast (cx : Ctx) : Ir.Exprs → Option Ty
     | .cons _ _ => exprTyLast cx r
 end
 
+/-- the scalar type of the first operand is one of those the arm routes to the library call -/
+def scalarIn (scalars : List String) (t : Ty) : Bool :=
+  match scalarKey t with
+  | some k => scalars.contains k
+  | none => false
+
 /-- `metal_lib_identifier(name)` printed as a scoped identifier -/
 def metalLib (name : String) : String := metalLibPrefix ++ "::" ++ name
 
@@ -168,7 +174,7 @@ def genExpr (cx : Ctx) : Ir.Expr → Except GenErr HlslAst.Expr
         match exprTy cx a with
         | none => .error (.panic "generate_intrinsic_op: called `Result::unwrap()` on an `Err` value")
         | some t =>
-          if (match scalarKey t with | some k => scalars.contains k | none => false) then
+          if scalarIn scalars t then
             match genArgs cx args with
             | .error e => .error e
             | .ok as => .ok (.call (metalLib name) as)
